@@ -33,6 +33,7 @@ type gateHarness struct {
 	composeFail  map[int]bool // fail the n-th compose call
 	composeGate  map[int]bool // n-th compose returns a Gateable payload
 	sendLog      []interface{}
+	sendTag      []int // which Sender object received the call
 	sendN        int
 	sendFail     map[int]bool
 	gateableSent int
@@ -80,13 +81,17 @@ func (p *gPayload) ComposeFrom(events []*el.Event) (el.EventType, interface{}, e
 	return "composite", &compPayload{Seqs: seqs}, nil
 }
 
-type fakeSender struct{ h *gateHarness }
+type fakeSender struct {
+	h   *gateHarness
+	tag int
+}
 
 func (s *fakeSender) Send(ctx context.Context, t el.EventType, payload interface{}) (el.Status, error) {
 	simrt.Yield("gate:send")
 	h := s.h
 	h.sendN++
 	h.sendLog = append(h.sendLog, payload)
+	h.sendTag = append(h.sendTag, s.tag)
 	if _, isG := payload.(gated.Gateable); isG {
 		h.gateableSent++
 	}
@@ -175,8 +180,11 @@ func runGateSeqOps(rc *RunCtx, prop string, fixed []gateOp, fixedBroker bool) {
 		gf.Expiration = 0
 		E = gated.DefaultEventTimeout
 	}
+	senders := []*fakeSender{nil, {h, 1}, {h, 2}}
+	curTag := 0 // which Sender is configured now (0: none)
 	if hasBroker {
-		gf.Broker = &fakeSender{h}
+		gf.Broker = senders[1]
+		curTag = 1
 	}
 	curE := E // the expiration in force for groups opened now
 	desc := &gateDesc{Broker: hasBroker, Expiration: E.String()}
@@ -251,6 +259,11 @@ func runGateSeqOps(rc *RunCtx, prop string, fixed []gateOp, fixedBroker bool) {
 				// from now on expire earlier / later than the ones already open
 				op = gateOp{Kind: "set-expiration", D: []int64{int64(E) / 10, int64(E) * 10, int64(E) / 3}[tp.Choose(3, "newexp")]}
 			}
+			if !probe && fixed == nil && tp.Choose(12, "set-broker") == 0 {
+				// the exported Broker field is assigned, replaced or cleared on the live filter:
+				// whatever is emitted from now on goes to the Sender configured THEN
+				op = gateOp{Kind: "set-broker", D: int64(tp.Choose(3, "which-broker"))}
+			}
 			if fixed != nil && !probe {
 				op = fixed[i]
 				switch op.D {
@@ -317,6 +330,10 @@ func runGateSeqOps(rc *RunCtx, prop string, fixed []gateOp, fixedBroker bool) {
 					fail("sent-wrong-composite", "", "the Broker received %v, expected the composite of group %q = %v", h.sendLog[si], g.id, g.events)
 					return ""
 				}
+				if h.sendTag[si] != curTag {
+					fail("sent-to-stale-broker", "", "the composite of group %q went to Sender #%d, but Sender #%d is the configured Broker now", g.id, h.sendTag[si], curTag)
+					return ""
+				}
 				snum := sBase + (si - sMark) + 1
 				si++
 				if h.sendFail[snum] {
@@ -333,6 +350,16 @@ func runGateSeqOps(rc *RunCtx, prop string, fixed []gateOp, fixedBroker bool) {
 				}
 			}
 			switch op.Kind {
+			case "set-broker":
+				curTag = int(op.D)
+				hasBroker = curTag != 0
+				if hasBroker {
+					gf.Broker = senders[curTag]
+				} else {
+					gf.Broker = nil
+				}
+				simrt.Probe("gate.broker-field-changed")
+				histStr = append(histStr, fmt.Sprintf("set-broker(#%d)", curTag))
 			case "set-expiration":
 				if op.D < 1 {
 					op.D = 1
@@ -560,7 +587,7 @@ func runGateConc(rc *RunCtx) {
 	hasBroker := tp.Choose(3, "broker") != 0
 	gf := &gated.Filter{Expiration: time.Hour}
 	if hasBroker {
-		gf.Broker = &fakeSender{h}
+		gf.Broker = &fakeSender{h: h}
 	}
 	nClients := 2 + tp.Choose(3, "nclients")
 	var evs []*gcEvent
@@ -707,7 +734,7 @@ func runGateExpiryConc(rc *RunCtx) {
 		t    time.Time
 	}
 	var nowLog []nowRec
-	gf := &gated.Filter{Expiration: E, Broker: &fakeSender{h}}
+	gf := &gated.Filter{Expiration: E, Broker: &fakeSender{h: h}}
 	gf.NowFunc = func() time.Time {
 		t := simrt.Now("gate:nowfunc")
 		nowLog = append(nowLog, nowRec{simrt.TaskID(), t})
@@ -823,7 +850,7 @@ func runGateFlushConc(rc *RunCtx) {
 	tp := rc.Tape
 	sim := rc.Sim
 	h := &gateHarness{composeFail: map[int]bool{}, composeGate: map[int]bool{}, sendFail: map[int]bool{}}
-	gf := &gated.Filter{Expiration: time.Hour, Broker: &fakeSender{h}}
+	gf := &gated.Filter{Expiration: time.Hour, Broker: &fakeSender{h: h}}
 	nGroups := 2 + tp.Choose(4, "ngroups")
 	seq := 0
 	ctx := context.Background()
